@@ -166,8 +166,7 @@ Proof. exact (proj2 native_clash_shown). Qed.
 
 (* the alias set: where the Program enters package interp and which interpreter
    fields alias it (slice headers copied by newInterp share the backing arrays) *)
-Theorem C19_alias_set : list_eqb pair_eqb seeds expected_seeds = true /\
-                        list_eqb af_eqb alias_fields expected_alias_fields = true.
+Theorem C19_alias_set : seeds = expected_seeds /\ alias_fields = expected_alias_fields.
 Proof. exact (conj seeds_as_expected alias_set_as_expected). Qed.
 Print Assumptions C19_alias_set.
 
